@@ -182,7 +182,7 @@ CHECKS = {
         "level": "exploration",
         "technique": "reference-model monitor in lock-step with the real interpreter (per instruction) + FP-domain invariant monitor at the interpreter hook",
         "jobs": lambda tier: [
-            {"variant": "opt", "sub": "c05", "shards": 16, "cases": T(tier, 40, 2000), "args": {"steps": T(tier, 300000, 4000000), "nhashes": T(tier, 1, 12)}, "timeout": T(tier, 1800, 10800)},
+            {"variant": "opt", "sub": "c05", "shards": 16, "cases": T(tier, 40, 2000), "args": {"steps": T(tier, 300000, 25000000), "nhashes": T(tier, 1, 12)}, "timeout": T(tier, 1800, 10800)},
             {"variant": "asan", "sub": "c05", "shards": 4, "cases": T(tier, 6, 60), "args": {"steps": T(tier, 20000, 300000), "nhashes": 1}, "timeout": T(tier, 1800, 10800)},
         ],
         "rule": "workload A: sequences of 1-6 instruction words (directed encodings, a sweep over all 256 opcodes, random words) are compiled by the real compileInstruction and executed by the real executeInstruction on a harness-owned register file and scratchpad, "
@@ -242,8 +242,8 @@ CHECKS = {
             {"variant": "opt", "sub": "c03", "shards": T(tier, 0, 2), "cases": 40, "args": {"ops": 60, "datasets": 1, "model_crosscheck": 0}, "timeout": 10800, "weight": 8},
             {"variant": "asan", "sub": "c03", "shards": T(tier, 8, 16), "cases": T(tier, 2, 16), "args": {"ops": T(tier, 14, 40), "model_crosscheck": 0}, "timeout": T(tier, 1800, 10800)},
         ],
-        "rule": "a case is one API history over up to 3 caches, 4 VMs (any light class incl. SECURE/LARGE_PAGES; fast classes with 2 datasets in the thorough tier), 4 keys (one empty, two differing only beyond byte 60) and 6 inputs (lengths 0/1/76/200/64/129): every second history starts from one of nine scenario templates "
-                "(release+realloc same key, re-key+re-bind, re-key there and back, two caches with equal key, batch/re-key/batch, version switches between all operations, destroy/create VM on another cache, redundant init, release+realloc other key) instantiated per light VM class, followed by weighted random enabled operations "
+        "rule": "a case is one API history over up to 3 caches, 4 VMs (any light class incl. SECURE/LARGE_PAGES; fast classes with 2 datasets in the thorough tier), 4 keys (one empty, two differing only beyond byte 60) and 6 inputs (lengths 0/1/76/200/64/129): every second history starts from one of eleven scenario templates "
+                "(release+realloc same key, re-key+re-bind, re-key there and back, two caches with equal key, batch/re-key/batch, version switches between all operations, destroy/create VM on another cache, redundant init, release+realloc other key, re-bind to another object then re-key that object to a key the VM was bound with before - in both orders) instantiated per light VM class, followed by weighted random enabled operations "
                 "(hash, batch of 1-6 with other objects operated on in between, set_cache same/other object x same/other key, init same/other key, alloc/release incl. release while a VM is still bound, create/destroy, setFlagV2/clearFlagV2, set_dataset); scratchpad and tempHash are poisoned between operations; "
                 "every digest is compared with the digest of a fresh cache + fresh VM; non-trivial = contains a re-bind followed by a hash; distinct by hash of the operation sequence",
         "assumptions": ["fresh digests are computed per shard with newly allocated objects used for one (key, version) each; two entries are tied to the reference model, the rest by C01/C02", "contract: no hash on a VM whose cache was released or re-keyed without re-binding; batches are atomic per VM"],
